@@ -224,6 +224,8 @@ pub struct Ledger {
     pub quiesce_from: Option<usize>,
     /// simulated time at which the probe phase started (if it did)
     pub probe_start_ns: Option<u64>,
+    /// application index of the "fresh request after faults stopped" probe (if issued)
+    pub fresh_probe_app: Option<usize>,
     /// the run hit the step cap before finishing
     pub truncated: bool,
     /// scenario engines that do not drive a StunClient (C16 stream reassembly, ...) report here
